@@ -926,6 +926,10 @@ def gen_inventory(all_facts):
             for dp, a in crate.adts.items():
                 if a.get("local"):
                     ads.setdefault(dp, adt_shape(a))
+            import whomay
+            wm = out.setdefault("__whomay__", {})
+            for eff, fns in whomay.table(facts).items():
+                wm[eff] = sorted(set(wm.get(eff, [])) | set(fns))
             cs = out.setdefault("__consts__", {})
             for dp in crate.consts:
                 cs[dp] = 1
